@@ -87,6 +87,7 @@ func evalProg(p *Prog, goAlways bool) *progEval {
 	ev.GoOut = goOut
 	ev.VMOut = make([][]string, len(p.Fns))
 	cstats.add(c.script)
+	fstats.add(c)
 	progMeta := c.metaProg(p)
 	for i := range p.Fns {
 		f := &p.Fns[i]
